@@ -37,7 +37,7 @@ type Engine struct {
 	sentinels    []string          // SMT constant names of sentinel errors
 	sentinelOf   map[string]string // "pkgpath.Name" -> smt const
 	errStructs   []string          // names of error struct types (VerifyError, errNonAdjacent)
-	writeSets    map[*ssa.Function]map[string]bool
+	writeSets    map[*ssa.Function]writeSetT
 	bindErrors   []string
 	assumptions  map[string]bool // textual assumption registry (global)
 	extraSpecDir string
@@ -90,7 +90,7 @@ func loadEngine(repo string, specDir string) (*Engine, error) {
 		funcs: map[string]*ssa.Function{}, specs: map[string]*FuncSpec{}, ifaces: map[string]*FuncSpec{}, fields: map[string]*FuncSpec{},
 		pures: map[string]*PureFunc{}, preds: map[string]*PredDecl{}, ghosts: map[string]*GhostVar{},
 		locks: map[string]*LockInv{}, chans: map[string]*ChanInv{}, atomics: map[string]*ChanInv{},
-		sentinelOf: map[string]string{}, writeSets: map[*ssa.Function]map[string]bool{}, assumptions: map[string]bool{},
+		sentinelOf: map[string]string{}, writeSets: map[*ssa.Function]writeSetT{}, assumptions: map[string]bool{},
 		extraSpecDir: specDir,
 	}
 	for _, sp := range spkgs {
